@@ -94,8 +94,8 @@ func (e *env) runSnap(o snapOpts) {
 		results := make([]*snapResult, len(cases))
 		ops := make([]string, len(cases))
 		for i, c := range cases {
-			if e.rng.Intn(6) == 0 {
-				e.poison(c)
+			if i > 0 && cases[i-1].gs == c.gs && e.rng.Intn(3) == 0 {
+				e.poison(c, cases[i-1])
 			}
 			results[i] = c.runImpl()
 			ops[i] = c.op()
@@ -155,16 +155,16 @@ func (e *env) runSnap(o snapOpts) {
 	}
 }
 
-// poison: before some cases the same tile matrix set is asked to snap a polygon that leaves the grid after a few inside vertices
-// (skipped with ignore-outside-grid, or panicking without it): whatever that call leaves behind must not influence the next one
-func (e *env) poison(c *snapCase) {
+// poison: before some cases the same tile matrix set (same ids) is asked to snap *another* polygon that leaves the grid after some inside
+// vertices (skipped with ignore-outside-grid, or panicking without it): whatever that call leaves behind must not influence the next one
+func (e *env) poison(c, other *snapCase) {
 	g := c.grid()
 	size := int64(1) << g.depth
 	pc := *c
 	pc.cfg.IgnoreOutsideGrid = e.rng.Intn(3) > 0
-	poly := make(geom.Polygon, len(c.poly))
-	for i := range c.poly {
-		poly[i] = append([][2]float64{}, c.poly[i]...)
+	poly := make(geom.Polygon, len(other.poly))
+	for i := range other.poly {
+		poly[i] = append([][2]float64{}, other.poly[i]...)
 	}
 	if len(poly) == 0 || len(poly[0]) < 2 {
 		return
